@@ -10,6 +10,14 @@ CLAIMED = {
   text="Decides, for every path of TryAttestation / Attest / attestationTally and every writer of the two oracle cursors in the module: the claim's effect, the Observed flag and the cursor advance happen only under !Observed, summed-voter-power > 66/100 of total (formula normalised symbolically; strict; threshold variable written only by its initialiser), and nonce == lastObserved+1, with the cursor advanced (and checked) before the effect; a vote is appended only under per-validator contiguity, after a membership test, and the validator's cursor is stored on every success path; cursor writers are monotone-guarded or reachable only from governance/genesis/listeners; the tally re-reads the cursor each iteration over the sorted nonce keys. NOT decided: arithmetic over concrete power distributions and power changes between vote and tally; 'exactly once whenever applicable'.",
   technique="SSA dominator guards + symbolic threshold normal form + must-pass-through + store-writer sets over VTA call graph",
   ref="C02"),
+ "C04": dict(
+  text="Decides, for every path of the quorum predicate, VerifyEvidence, VerifyGasEstimates, AddEvidence, attestMessageWrapper and the two estimate setters: the predicate normalises symbolically to sum >= 2/3·total (non-strict, exact ratio) over TotalShares and ShareCount of found snapshot validators; a winner is stored only under the quorum of an accumulator re-created per evidence group, groups keyed by a hash of BytesToHash; per-validator evidence is replaced not appended and has one writer; attester and queue removal run only after VerifyEvidence==nil; the median is taken only under the quorum over a slice every element of which is assigned a submitted value; an elected estimate is written only when none exists; no wrapping +/* over two submitted estimates. NOT decided: boundary arithmetic for concrete share distributions, that the result is the median (sortedness / index arithmetic of Median).",
+  technique="symbolic threshold normal form + SSA dominator guards + loop-structure (natural loop) checks + field writer sets",
+  ref="C04"),
+ "C08": dict(
+  text="Decides over all 1100+ module functions reachable (VTA call graph, module-restricted) from every Msg/ABCI/ante/gov/wasm/hook entry point: no environment, wall-clock, randomness or runtime-state read, go statement or select influences execution (values feeding only logging are accepted); every production map range is classified (order-insensitive / sorted-before-use with a comparator that breaks ties on the map key / justified exemption) and early exits, last-writer-wins, float accumulation and state-mutating calls in map order are rejected; no store on a runtime or query path writes a package variable or a wiring-time (long-lived) object through a pointer. NOT decided: nondeterminism inside SDK / CometBFT / wasm, float behaviour across architectures, store iteration order.",
+  technique="call-graph reachability of forbidden sources + use-only-in-logging dataflow + map-range effect classification on SSA natural loops + long-lived-object store check",
+  ref="C08"),
 }
 props = [json.loads(l) for l in open(os.path.join(ROOT, "properties.jsonl"))]
 PENDING = "structural rules designed in DESIGN.md but not yet built in this checkout"
